@@ -108,7 +108,11 @@ func (c *ctx) walk(u *universe, o walkOpts) {
 			}
 			if fromTour {
 				for _, m := range sr.NewMsgs {
-					pending = append(pending, &worldOp{Kind: opDeliver, ID: m.ID, Gas: m.GasLimit})
+					dg := m.GasLimit
+					if op.DeliverGas != nil {
+						dg = *op.DeliverGas // the destination gets what is left of the gas limit after the origin shard's own consumption: any value below it
+					}
+					pending = append(pending, &worldOp{Kind: opDeliver, ID: m.ID, Gas: dg})
 				}
 			}
 			// the input structure is the caller's: the parser is run on it after the execution, the same input may be executed again
